@@ -39,12 +39,10 @@ FIXED = [
     ('D26', ['C17'], 'CoIo leaves the selector before its descriptor is closed', 'CoIo (unix sockets) closed the descriptor before EPOLL_CTL_DEL; a socket opened in between by another thread reused the number and lost its registration: reader suspended forever with bytes in the kernel (iochurn; rare hangs of the os::unix::net tests)'),
     ('D27', ['C12', 'C09'], 'RwLock read_unlock waits for the reader count with cancel disabled', 'cancel of a reader coroutine while it waits for the reader-count mutex in the drop of its guard (other readers active): cancel panic out of the drop, count never decremented, lock read-locked forever, writers stranded (rwcr, first few executions)'),
     ('D28', ['C11', 'C05', 'C09'], 'SyncBlocker::unpark sets its flag before it wakes the waiter', 'a notified Condvar waiter re-locking the mutex (cancel ignored) is resumed by a cancel between the unlocker\'s blocker.unpark() and its unparked.store(true): the token is wiped, is_unparked() is still false, the waiter parks again for ever, mutex never released (residual of the D12 repair; relock / cvc with a stall at SYNCBLOCKER_UNPARK_MID +fire)'),
+    ('D2io', ['C18', 'C17', 'C09'], 'a timed socket io reports its timeout also if the timer fired before', 'timed socket I/O: add_io_timer arms the timer before io_data.co.store(co); subscribing thread delayed >= the timeout in between with the selector on another worker: the timer fires into the empty slot, the time-out is lost, the operation blocks for ever (class io_timer_fired_before_publish; was a known finding until the repair)'),
 ]
 
 KNOWN = [
-    {'id': 'D2io', 'status': 'known', 'properties': ['C17', 'C18', 'C09'],
-     'what': 'timed socket I/O: add_io_timer arms the timer before io_data.co.store(co); if the subscribing thread is delayed >= the timeout in between and the fd\'s selector runs on another worker, the timer fires into the empty slot and the I/O time-out is lost (the Park variant is fixed; the io variant would need the deadline re-check in ten subscribe functions)',
-     'match': {'kind': '^stranded$', 'class': '^io_timer_fired_before_publish$'}},
     {'id': 'D13', 'status': 'known', 'properties': ['C09', 'C12'],
      'what': 'cancelling a coroutine that holds an RwLockReadGuard while other readers contend for the reader-count mutex: the guard\'s drop during the Cancel unwind cannot block, Mutex::lock raises a second panic while unwinding -> the process aborts (no small sound repair: nothing may block during a Cancel unwind)',
      'match': {'scenario': '^probe_d13$', 'kind': '^crash$', 'msg': 'signal 6|status 134'}},
